@@ -32,6 +32,7 @@ import SwcVerif.Model.AlgoRunAssemble
 import SwcVerif.Model.AlgoRunLMeasure
 import SwcVerif.Model.AlgoRunNodeBranch
 import SwcVerif.Model.AlgoRunMst
+import SwcVerif.Model.AlgoRunMstFront
 import SwcVerif.Model.AlgoRunSholl
 import SwcVerif.Model.AlgoRunResample
 import SwcVerif.Model.AlgoRunRaster
@@ -94,6 +95,7 @@ def dispatch (op : String) (args : List String) : String :=
   | "glm" => AlgoRun.handleLm args
   | "gtips" | "gnodebranch" | "gnode" => AlgoRun.handleNodeBranch op args
   | "gmst" => AlgoRun.handleMst args
+  | "gmstcall" => AlgoRun.handleMstCall args
   | "gsholl" => AlgoRun.handleSholl args
   | "gpoprows" | "gpoprows3" => AlgoRun.handlePopRows (op == "gpoprows3") args
   | "giso" | "glin" | "gsmooth" => AlgoRun.handleResample op args
